@@ -1055,6 +1055,62 @@ def check_shape(eng, s, tag):
             if not _guarded_by_not(cf, cb, callee):
                 return False, "caller %s:%s is not guarded by !%s()" % (cf.file, ct.get("ln"), callee.split("::")[-1])
         return True, "every caller is guarded by !%s()" % callee.split("::")[-1]
+    if tag.startswith("after-none-of:"):
+        # the site lies only on the None edge of `callee(x)` for the same x whose other accessor is unwrapped here
+        callee = tag.split(":", 1)[1]
+        from kq.gf2 import root_desc
+        recv = s.detail.get("recv")
+        rd_site = None
+        if recv is not None and is_place(recv):
+            d0 = fn.single_def(recv["l"]) if not proj(recv) else None
+            if d0 and d0[2] == "call" and d0[3]["args"]:
+                rd_site = root_desc(fn, d0[3]["args"][0])
+        for bi, t in fn.calls():
+            if callee_name(t) != callee or not fn.dominates(bi, s.bb) or t["t"] is None:
+                continue
+            if rd_site is not None and root_desc(fn, t["args"][0]) != rd_site:
+                continue
+            # find the discriminant switch on the result
+            dl = t["dest"]["l"]
+            for sb in sorted(fn.reach_from(t["t"])):
+                tt = fn.term(sb)
+                if tt["k"] != "switch" or not is_place(tt["d"]) or proj(tt["d"]):
+                    continue
+                dd = fn.single_def(tt["d"]["l"])
+                if not (dd and dd[2] == "assign" and dd[3]["k"] == "discr" and dd[3]["p"]["l"] == dl):
+                    continue
+                some_t = [tb for v, tb in tt["ts"] if v == 1] or ([tt["o"]] if any(v == 0 for v, _ in tt["ts"]) else [])
+                if some_t and s.bb not in fn.reach_from(some_t[0], avoid=[sb]) and fn.dominates(sb, s.bb):
+                    return True, "only on the None edge of %s() of the same expression" % callee.split("::")[-1]
+        return False, "no longer confined to the None edge of %s() of the same expression" % callee.split("::")[-1]
+    if tag.startswith("none-closure-of:"):
+        # the site is inside a closure that only runs when `callee(..)` returned None: the closure is the argument of
+        # Option::unwrap_or_else / or_else / map_or_else whose receiver derives from that call
+        callee = tag.split(":", 1)[1]
+        from kq.analysis import backward_slice
+        par = eng.prog.fn_opt(norm_name(fn.iparent)) if getattr(fn, "iparent", None) else None
+        if par is None:
+            return False, "not a closure"
+        for bi, t in par.calls():
+            if (callee_name(t) or "").split("::")[-1] not in ("unwrap_or_else", "or_else", "map_or_else", "ok_or_else"):
+                continue
+            if not (callee_name(t) or "").startswith("core::option::Option::"):
+                continue
+            is_arg = False
+            for a_ in t["args"][1:]:
+                r = Resolver(par).root(a_) if is_place(a_) else ("?",)
+                if r[0] == "agg" and norm_name(r[1][2].get("clo", "")) == fn.norm:
+                    is_arg = True
+            if not is_arg:
+                continue
+            _, cals, _ = backward_slice(par, t["args"][0])
+            if callee in cals:
+                return True, "closure of %s on a value derived from %s()" % ((callee_name(t) or "").split("::")[-1], callee.split("::")[-1])
+        return False, "the closure is no longer the None-branch of %s()" % callee.split("::")[-1]
+    if tag.startswith("dominated-by-call:"):
+        callee = tag.split(":", 1)[1]
+        ok = any(callee_name(t) == callee and fn.dominates(bi, s.bb) for bi, t in fn.calls())
+        return ok, ("after %s()" % callee.split("::")[-1]) if ok else ("no longer preceded by %s()" % callee.split("::")[-1])
     return False, "unknown shape requirement " + tag
 
 
